@@ -684,3 +684,36 @@ func overwrittenUnless(st *ssa.Store, l lval) ([]gcond, bool) {
 	})
 	return out, okAll
 }
+
+// bypassReturn: a return of fn that can be reached from its entry without passing through block `must` and without
+// taking any of the branch edges `cut` allows to be taken (cut gives, for a branch, the index of the successor edge that
+// is a legitimate way round - the event's own text is empty, an earlier step failed - or -1). nil when there is none.
+func bypassReturn(fn *ssa.Function, must *ssa.BasicBlock, cut func(iff *ssa.If) int) *ssa.BasicBlock {
+	seen := map[*ssa.BasicBlock]bool{must: true}
+	var found *ssa.BasicBlock
+	var walk func(b *ssa.BasicBlock)
+	walk = func(b *ssa.BasicBlock) {
+		if seen[b] || found != nil {
+			return
+		}
+		seen[b] = true
+		last := b.Instrs[len(b.Instrs)-1]
+		if _, isRet := last.(*ssa.Return); isRet {
+			found = b
+			return
+		}
+		skip := -1
+		if iff, ok := last.(*ssa.If); ok {
+			skip = cut(iff)
+		}
+		for i, s := range b.Succs {
+			if i != skip {
+				walk(s)
+			}
+		}
+	}
+	if len(fn.Blocks) > 0 && fn.Blocks[0] != must {
+		walk(fn.Blocks[0])
+	}
+	return found
+}
